@@ -268,11 +268,13 @@ def main():
                 for vidx in (0, 1, 2):
                     items.append((4, 7, 3, 'cu', tw, ridx, vidx, 3, None))
         items += [(6, 8, 3, 'nu', 'radial', 1, 0, 2, None), (5, 7, 1, 'nu', 'radial', 0, 2, 2, None), (4, 9, 2, 'nu', 'zero', 0, 1, 9, None)]
+    # displacements of more than the whole z domain with non-zero twist (each complete turn adds iota*Lz/R0 to theta)
+    extra = [(4, 7, 3, 'cu', 'radial', 1, 2, 9, None, (7, 8)), (4, 7, 3, 'cu', 'radial', 0, 0, 9, None, (-9, -8))]
     split = []
     for it in items:
         for c in range(-it[7], it[7]):
             split.append(it + ((c, c + 1),))
-    items = split
+    items = split + extra
     items.append((4, 7, 3, 'cu', 'radial', 1, 2, 1, CANARIES[0]))
     items.append((4, 7, 3, 'cu', 'zero', 0, 0, 1, CANARIES[1]))
     caught = {}
